@@ -54,6 +54,7 @@ func init() {
 	gwReg("c14h", gw.RunC14HTTP)
 	register("gw", "smoke", true, func(t *testing.T, r *sim.Run) { gw.PreBubble(); inBubble(t, true, func() { gw.RunSmoke(r) }) })
 	register("rl", "c07", true, func(t *testing.T, r *sim.Run) { inBubble(t, true, func() { rl.RunC07(r) }) })
+	register("rl", "c16l", true, func(t *testing.T, r *sim.Run) { inBubble(t, true, func() { rl.RunC16L(r) }) })
 	register("rl", "c08tb", true, func(t *testing.T, r *sim.Run) { inBubble(t, true, func() { rl.RunC08TB(r) }) })
 	register("rl", "c07o", true, func(t *testing.T, r *sim.Run) { inBubble(t, true, func() { rl.RunC07Overlap(r) }) })
 	register("rl", "c13", true, func(t *testing.T, r *sim.Run) { inBubble(t, true, func() { rl.RunC13(r) }) })
